@@ -71,8 +71,8 @@ func init() {
 								continue
 							}
 							cf := c10Cfg{typ, tr, def, st}
-							bs = append(bs, core.Batch{Name: fmt.Sprintf("random-%d", i), TimeoutS: 600, Params: core.Params(c10Params{Kind: "random", Cfg: cf, N: tierPick(tier, 150, 6000)})})
-							bs = append(bs, core.Batch{Name: fmt.Sprintf("history-%d", i), TimeoutS: 600, Params: core.Params(c10Params{Kind: "history", Cfg: cf, N: tierPick(tier, 8, 250)})})
+							bs = append(bs, core.Batch{Name: fmt.Sprintf("random-%d", i), TimeoutS: 600, Params: core.Params(c10Params{Kind: "random", Cfg: cf, N: tierPick(tier, 400, 6000)})})
+							bs = append(bs, core.Batch{Name: fmt.Sprintf("history-%d", i), TimeoutS: 600, Params: core.Params(c10Params{Kind: "history", Cfg: cf, N: tierPick(tier, 20, 250)})})
 							i++
 						}
 					}
